@@ -302,6 +302,52 @@ def impl_checks(ctx):
                         else:
                             bad("Hall-Yarbrough and DAK disagree by more than a few percent on their common range",
                                 dict(T_r=float(tr), p_r=float(pr)), dict(hall_yarbrough=zh, dak_library=zd, dak_published=zp))
+        # inputs chosen so that the FIRST Newton step (from the starting density 0.001) lands on, or within a few floats of, 1: the
+        # residual is affine in the pressure, so that pressure is known in closed form; where it lies inside the range the routine
+        # must still terminate with a finite value close to its neighbours' (fixed 2026-10: it used to stall for ever on the float
+        # just below 1 and, before the first repair, to return NaN beyond it)
+        stall_pts = [(27.823693612435807, 1.5), (20.08755433473804, 1.2)]
+        for tr in np.linspace(1.1, 1.6, 6 if ctx.quick else 26):
+            t_ = 1 / float(tr)
+            y0 = 0.001
+            A_ = 0.06125 * t_ * math.exp(-1.2 * (1 - t_) ** 2)
+            B_ = ((y0 + y0 ** 2 + y0 ** 3 - y0 ** 4) / (1 - y0) ** 3 - (14.76 * t_ - 9.76 * t_ ** 2 + 4.58 * t_ ** 3) * y0 ** 2
+                  + (90.7 * t_ - 242.2 * t_ ** 2 + 42.4 * t_ ** 3) * y0 ** (2.18 + 2.82 * t_))
+            D_ = ((1 + 4 * y0 + 4 * y0 ** 2 - 4 * y0 ** 3 + y0 ** 4) / (1 - y0) ** 4 - (29.52 * t_ - 19.52 * t_ ** 2 + 9.16 * t_ ** 3) * y0
+                  + (2.18 + 2.82 * t_) * (90.7 * t_ - 242.2 * t_ ** 2 + 42.4 * t_ ** 3) * y0 ** (1.18 + 2.82 * t_))
+            p_star = (B_ + D_ * (1 - y0)) / A_
+            if 0 < p_star <= 30:
+                q_ = p_star
+                for _ in range(6):
+                    q_ = math.nextafter(q_, 0.0)
+                for _ in range(13):
+                    stall_pts.append((q_, float(tr)))
+                    q_ = math.nextafter(q_, 100.0)
+        for pr, tr in stall_pts:
+            signal.setitimer(signal.ITIMER_REAL, 2.0)
+            try:
+                with warnings.catch_warnings():
+                    warnings.simplefilter("ignore")
+                    zh = float(gas.z_factor_hallyarbrough(float(pr), float(tr)))
+            except TO:
+                zh = None
+            finally:
+                signal.setitimer(signal.ITIMER_REAL, 0)
+            hy_n += 1
+            zn = None
+            if zh is not None and math.isfinite(zh):
+                signal.setitimer(signal.ITIMER_REAL, 2.0)
+                try:
+                    with warnings.catch_warnings():
+                        warnings.simplefilter("ignore")
+                        zn = float(gas.z_factor_hallyarbrough(float(pr) * (1 + 1e-6), float(tr)))
+                except TO:
+                    zn = None
+                finally:
+                    signal.setitimer(signal.ITIMER_REAL, 0)
+            if zh is None or not math.isfinite(zh) or zn is None or not math.isfinite(zn) or abs(zh / zn - 1) > 1e-3:
+                bad("z_factor_hallyarbrough does not terminate with a finite value that varies continuously with pressure (inputs whose first Newton step lands next to reduced density 1)",
+                    dict(T_r=float(tr), p_r=float(pr)), dict(value=zh, value_at_p_times_1_000001=zn))
     finally:
         signal.signal(signal.SIGALRM, old)
     ctx.cov.update(evaluations=ev + hy_n, distinct_nontrivial=len(pts), k1_points=k1_seen,
